@@ -370,4 +370,131 @@ theorem cOf_zero (almost : XR → XR → Bool) (cs : List (Bucket XR)) : cOf alm
   | nil => rfl
   | cons b bs => simp [cOf, ensureMonotonic]
 
+/-! ### counts: duplicates are merged by summing -/
+
+/-- sum of the counts of the buckets whose bound is `x` -/
+def cntFor (x : XR) : List (Bucket XR) → Rat
+  | [] => 0
+  | b :: bs => (if b.ub = x then ratOf b.count else 0) + cntFor x bs
+
+theorem cntFor_insertB (x : XR) (b : Bucket XR) : ∀ xs : List (Bucket XR), cntFor x (insertB b xs) = cntFor x (b :: xs) := by
+  intro xs
+  induction xs with
+  | nil => rfl
+  | cons y ys ih =>
+    simp only [insertB]
+    split
+    · simp only [cntFor, ih]; grind
+    · rfl
+
+theorem cntFor_sortB (x : XR) : ∀ bs : List (Bucket XR), cntFor x (sortB bs) = cntFor x bs := by
+  intro bs
+  induction bs with
+  | nil => rfl
+  | cons b bs ih => simp only [sortB, cntFor_insertB, cntFor, ih]
+
+theorem cntFor_absent (x : XR) : ∀ l : List (Bucket XR), (∀ z ∈ l, z.ub ≠ x) → cntFor x l = 0 := by
+  intro l
+  induction l with
+  | nil => intro _; rfl
+  | cons b bs ih =>
+    intro h
+    have hb : ¬ b.ub = x := h b (by simp)
+    simp only [cntFor, hb, if_false, ih (fun z hz => h z (by simp [hz]))]
+    grind
+
+theorem XR.lt_ne {a b : XR} (h : XR.lt a b = true) : a ≠ b := by
+  intro e; subst e
+  cases a <;> simp [XR.lt] at h
+
+theorem sorted_head_lt (last b : Bucket XR) (bs : List (Bucket XR)) (hok : AllUbOk (last :: b :: bs))
+    (S : SortedUb (last :: b :: bs)) (e : XR.beq b.ub last.ub = false) : ∀ z ∈ b :: bs, XR.lt last.ub z.ub = true := by
+  have hl : UbOk last.ub := hok last (by simp)
+  have hb : UbOk b.ub := hok b (by simp)
+  obtain ⟨S1, S2⟩ := List.pairwise_cons.mp S
+  obtain ⟨S3, _⟩ := List.pairwise_cons.mp S2
+  have hlb : XR.lt last.ub b.ub = true := UbOk.lt_of_nlt_of_ne hl hb (S1 b (by simp)) e
+  intro z hz
+  rcases List.mem_cons.mp hz with rfl | hz
+  · exact hlb
+  · exact UbOk.lt_of_lt_of_nlt hl hb (hok z (by simp [hz])) hlb (S3 z hz)
+
+/-- every coalesced bucket carries the sum of the counts of the input buckets with its bound -/
+theorem coalesce_counts : ∀ (rest : List (Bucket XR)) (last : Bucket XR), AllUbOk (last :: rest) →
+    SortedUb (last :: rest) → FinC (last :: rest) →
+    ∀ y ∈ coalesce last rest, y.count = .fin (cntFor y.ub (last :: rest)) := by
+  intro rest
+  induction rest with
+  | nil =>
+    intro last _ _ F y hy
+    simp [coalesce] at hy
+    subst hy
+    obtain ⟨c, hc⟩ := F y (by simp)
+    simp only [cntFor, if_true, hc, ratOf]
+    congr 1; grind
+  | cons b bs ih =>
+    intro last hok S F y hy
+    have hl : UbOk last.ub := hok last (by simp)
+    have hb : UbOk b.ub := hok b (by simp)
+    obtain ⟨c1, hc1⟩ := F last (by simp)
+    obtain ⟨c2, hc2⟩ := F b (by simp)
+    obtain ⟨S1, S2⟩ := List.pairwise_cons.mp S
+    obtain ⟨_, S4⟩ := List.pairwise_cons.mp S2
+    simp only [coalesce, fops_beq] at hy
+    split at hy
+    · rename_i e
+      have e' : b.ub = last.ub := (UbOk.beq_eq hb hl).mp e
+      have := ih { last with count := FOps.add last.count b.count }
+        (by
+          intro z hz
+          rcases List.mem_cons.mp hz with rfl | hz
+          · exact hl
+          · exact hok z (by simp [hz]))
+        (by
+          apply List.pairwise_cons.mpr
+          exact ⟨fun z hz => S1 z (List.mem_cons_of_mem _ hz), S4⟩)
+        (by
+          intro z hz
+          rcases List.mem_cons.mp hz with rfl | hz
+          · exact ⟨c1 + c2, by simp [hc1, hc2]⟩
+          · exact F z (by simp [hz]))
+        y hy
+      rw [this]
+      congr 1
+      simp only [cntFor, hc1, hc2, fops_add, XR.add_fin, ratOf, e']
+      split <;> grind
+    · rename_i e
+      have e' : XR.beq b.ub last.ub = false := by simpa using e
+      have hlt := sorted_head_lt last b bs hok S e'
+      rcases List.mem_cons.mp hy with rfl | hy
+      · have h0 : cntFor y.ub (b :: bs) = 0 :=
+          cntFor_absent _ _ (fun z hz => (XR.lt_ne (hlt z hz)).symm)
+        simp only [cntFor] at h0 ⊢
+        simp only [if_true, hc1, ratOf]
+        congr 1; grind
+      · have hy2 := ih b (fun z hz => hok z (List.mem_cons_of_mem _ hz)) S2
+          (fun z hz => F z (List.mem_cons_of_mem _ hz)) y hy
+        obtain ⟨z, hz, ez⟩ := coalesce_ub_mem bs b y hy
+        have hne : ¬ last.ub = y.ub := by rw [ez]; exact XR.lt_ne (hlt z hz)
+        rw [hy2]
+        congr 1
+        simp only [cntFor, hne, if_false]
+        grind
+
+/-- "sorted by upper bound, duplicates merged by summing counts": every bucket of `sortCoalesce buckets`
+    carries the sum of the counts of all input buckets with the same bound -/
+theorem sortCoalesce_counts (buckets : List (Bucket XR)) (hok : AllUbOk buckets) (F : FinC buckets) :
+    ∀ c ∈ sortCoalesce buckets, c.count = .fin (cntFor c.ub buckets) := by
+  have hS := sortB_sorted buckets hok
+  have hokS : AllUbOk (sortB buckets) := fun y hy => hok y ((mem_sortB y buckets).mp hy)
+  have hFS : FinC (sortB buckets) := fun y hy => F y ((mem_sortB y buckets).mp hy)
+  have hcnt := fun x => cntFor_sortB x buckets
+  unfold sortCoalesce
+  generalize sortB buckets = s at hS hokS hFS hcnt
+  cases s with
+  | nil => intro c hc; simp at hc
+  | cons first rest =>
+    intro c hc
+    rw [coalesce_counts rest first hokS hS hFS c hc, hcnt]
+
 end Prom.Quantile
